@@ -8,6 +8,9 @@
 #define generate_final_program i_generate_final_program
 #define initialize_parser i_initialize_parser
 
+/* deepest parse tree the recursive tree walkers (optimizer, code generator) accept */
+#define MAX_PARSE_TREE_DEPTH 10000
+
 int node_always_true(parse_node_t *);
 short generate(parse_node_t *);
 short generate_function(compiler_function_t *, parse_node_t *, int);
